@@ -4,7 +4,7 @@ from . import common, projgen, projcheck, projrun
 PROF = projgen.profile(p_dep=0.7, p_soft=0.35, p_ifthen=0.3, p_provides=0.4, p_unique=0.2, p_conflicts=0.25,
                        p_ctx_select=0.3, p_ctx_disable=0.2, p_cli_select=0.45, p_cli_disable=0.3,
                        p_tasks=0.1, p_custom_build=0.03, p_download=0.03, p_varopts=0.05)
-OBS = ("status", "decision", "modules")
+OBS = ("status", "decision", "modules", "loaded")
 
 
 def sat(n, names, mods):
